@@ -59,7 +59,10 @@ impl CircuitState {
 /// Represents a call record in the time-based sliding window.
 #[derive(Debug, Clone)]
 struct CallRecord {
+    #[cfg(not(feature = "verif-hooks"))]
     timestamp: Instant,
+    #[cfg(feature = "verif-hooks")]
+    timestamp: tokio::time::Instant,
     is_failure: bool,
     is_slow: bool,
 }
@@ -67,7 +70,10 @@ struct CallRecord {
 pub(crate) struct Circuit {
     state: CircuitState,
     state_atomic: std::sync::Arc<AtomicU8>,
+    #[cfg(not(feature = "verif-hooks"))]
     last_state_change: std::time::Instant,
+    #[cfg(feature = "verif-hooks")]
+    last_state_change: tokio::time::Instant,
     // Count-based window tracking
     failure_count: usize,
     success_count: usize,
@@ -95,7 +101,10 @@ impl Circuit {
         Self {
             state: CircuitState::Closed,
             state_atomic,
+            #[cfg(not(feature = "verif-hooks"))]
             last_state_change: std::time::Instant::now(),
+            #[cfg(feature = "verif-hooks")]
+            last_state_change: tokio::time::Instant::now(),
             failure_count: 0,
             success_count: 0,
             total_count: 0,
@@ -150,6 +159,8 @@ impl Circuit {
 
     /// Clean up old records from the time-based window.
     fn cleanup_old_records(&mut self, window_duration: Duration) {
+        #[cfg(feature = "verif-hooks")]
+        use tokio::time::Instant;
         let now = Instant::now();
         while let Some(record) = self.call_records.front() {
             if now.duration_since(record.timestamp) > window_duration {
@@ -203,6 +214,8 @@ impl Circuit {
             }
             SlidingWindowType::TimeBased => {
                 if let Some(window_duration) = config.sliding_window_duration {
+                    #[cfg(feature = "verif-hooks")]
+                    use tokio::time::Instant;
                     self.cleanup_old_records(window_duration);
                     self.call_records.push_back(CallRecord {
                         timestamp: Instant::now(),
@@ -282,6 +295,8 @@ impl Circuit {
             }
             SlidingWindowType::TimeBased => {
                 if let Some(window_duration) = config.sliding_window_duration {
+                    #[cfg(feature = "verif-hooks")]
+                    use tokio::time::Instant;
                     self.cleanup_old_records(window_duration);
                     self.call_records.push_back(CallRecord {
                         timestamp: Instant::now(),
@@ -404,6 +419,9 @@ impl Circuit {
     }
 
     fn transition_to<C>(&mut self, state: CircuitState, config: &CircuitBreakerConfig<C>) {
+        // verif-hooks: `std::time::Instant` below resolves to tokio's pausable clock
+        #[cfg(feature = "verif-hooks")]
+        use tokio as std;
         if self.state == state {
             return;
         }
